@@ -239,6 +239,50 @@ def r22_7(ctx, rep):
     run_as(r19_4, "R22.7", ctx, rep)
 
 
+@SPEC.rule(
+    "R22.8",
+    "inside a for-loop the delayed expression is the delayed expression: every value Generator.exitForEquation can store as the first argument "
+    "of the DelayArgument it writes back is the result of mapping a function of the original delay argument's expression "
+    "(`ca.Function(.., [<argument>.expr]).map(..).call(..)`) over the loop's values, or a reshaping of that result — a short cut that slices "
+    "the array by the loop values ignores the subscript expression (`delay(a[i-1], tau)` then delays a[i])",
+)
+def r22_8(ctx, rep):
+    from ..pyutil import inlined, stmt_list_of
+    R = "R22.8"
+    fn = ctx.func(GEN, "Generator.exitForEquation", R)
+    site = GEN + ":Generator.exitForEquation"
+    n = 0
+    for st in ast.walk(fn):
+        if not isinstance(st, ast.Assign):
+            continue
+        c = st.value
+        if not (isinstance(c, ast.Call) and (call_name(c) or "").endswith("DelayArgument") and c.args and isinstance(c.args[0], ast.Name)
+                and "delay_arguments" in norm(st.targets[0])):
+            continue
+        v = c.args[0].id
+        block = stmt_list_of(st) or []
+        defs = [d for b in block for d in ast.walk(b) if isinstance(d, ast.Assign) and any(
+            isinstance(x, ast.Name) and x.id == v and isinstance(x.ctx, ast.Store) for t in d.targets for x in ast.walk(t))]
+        if not defs:
+            raise MechanismMissing(R, "no definition of `%s` found next to the DelayArgument it is stored in" % v)
+        for d in defs:
+            n += 1
+            val = d.value
+            reads_self_only = {x.id for x in ast.walk(val) if isinstance(x, ast.Name)} == {v}
+            mapped = False
+            if isinstance(val, ast.Call) and isinstance(val.func, ast.Attribute) and val.func.attr == "call":
+                recv = inlined(val.func.value, block)
+                if isinstance(recv, ast.Call) and isinstance(recv.func, ast.Attribute) and recv.func.attr == "map":
+                    base = recv.func.value
+                    if isinstance(base, ast.Call) and (call_name(base) or "").endswith("Function") and len(base.args) >= 3:
+                        outs = base.args[2]
+                        mapped = isinstance(outs, ast.List) and len(outs.elts) == 1 and isinstance(outs.elts[0], ast.Attribute) and outs.elts[0].attr == "expr"
+            rep.ob(R, site, "`%s` comes from the delay argument's own expression" % norm(d)[:60], mapped or reads_self_only,
+                   "the delayed expression written back is `%s`: not the original argument's expression evaluated over the loop" % norm(val)[:70])
+    if n < 2:
+        raise MechanismMissing(R, "the DelayArgument written back by exitForEquation (and the definitions of its expression) were not found")
+
+
 # -- seeded variants ---------------------------------------------------------
 from ._mut import delete_stmt_where, replace_in_func  # noqa: E402
 
